@@ -30,6 +30,9 @@ def build():
 
 
 def witness_search(prop, violations, seed, cfg):
+    if os.environ.get('VERIF_NO_WITNESS'):
+        # development switch (mutation scoring on a scratch copy): the witness crate is built against /repo
+        return dict(found=False, note='witness search disabled (VERIF_NO_WITNESS)')
     b = build()
     if not b or b.get('error'):
         return dict(found=False, note='witness program unavailable: %s' % (b or {}).get('error', 'no replay crate'))
